@@ -1,10 +1,11 @@
 #!/bin/bash
-# sweep.sh <tier> <seed>... — run every registered check for each seed; one summary line per run
+# sweep.sh <tier> <seed>... — run every registered check (or those in $SWEEP_CHECKS) for each seed; one summary line per run
+# (evidence goes to a scratch directory: the registered evidence is written by run.py itself)
 TIER="$1"; shift
 cd "$(dirname "$0")/.."
 export NSL_VERIF_EVIDENCE_DIR="${SWEEP_EVIDENCE_DIR:-/tmp/sweep_evidence_$$}"
 for SEED in "$@"; do
-  for C in C01 C02 C03 C04 C05 C06 C07 C08 C09 C10 C11 C12 C13 C14 C15 C16 C17 C18 C19 C20; do
+  for C in ${SWEEP_CHECKS:-C01 C02 C03 C04 C05 C06 C07 C08 C09 C10 C11 C12 C13 C14 C15 C16 C17 C18 C19 C20}; do
     OUT=$(VERIF_SEED=$SEED /venv/bin/python run.py $C --tier $TIER 2>&1)
     RC=$?
     echo "seed=$SEED rc=$RC $(echo "$OUT" | tail -1)"
